@@ -110,6 +110,20 @@ def val(t, v):
     return {"t": t, "b": b32(v) if t in ("i32", "f32") else b64(v)}
 
 
+def class_pool(fmt):
+    """One or two representatives of every operand class of a binary float operator."""
+    if fmt == "f32":
+        bits, eb, mb, tob = 32, 8, 23, f32bits
+    else:
+        bits, eb, mb, tob = 64, 11, 52, f64bits
+    sign = 1 << (bits - 1)
+    expmask = ((1 << eb) - 1) << mb
+    q = 1 << (mb - 1)
+    pos = [0, 1, (1 << mb) - 1, 1 << mb, tob(1.0), tob(1.5), tob(3.0), expmask - 1, expmask, expmask | q, expmask | q | 5, expmask | 1,
+           expmask | (1 << 33 if fmt == "f64" else 1 << 12)]
+    return [x for v in pos for x in (v, v | sign)]
+
+
 def grid_items(rng, npool, nbin, rot, tier="quick"):
     from wasm_encode import OPS
     items = []
@@ -133,11 +147,17 @@ def grid_items(rng, npool, nbin, rot, tier="quick"):
             exact = o in ("abs", "neg")
             add(o, [t], [it_ if exact else t], [["local.get", 0], ["%s.%s" % (t, o)]] + ([["%s.reinterpret_%s" % (it_, t)]] if exact else []))
             calls += [{"op": "call", "inst": 1, "export": o, "args": [val(t, a)]} for a in P[t]]
-        binops = FBIN if rot is None else [o for j, o in enumerate(FBIN) if o == "copysign" or (j + rot) % 2 == 0]
-        for o in binops:
+        big = FBIN if rot is None else [o for j, o in enumerate(FBIN) if o == "copysign" or (j + rot) % 2 == 0]
+        CL = class_pool(t)
+        for o in FBIN:
             exact = o == "copysign"
             add(o, [t, t], [it_ if exact else t], [["local.get", 0], ["local.get", 1], ["%s.%s" % (t, o)]] + ([["%s.reinterpret_%s" % (it_, t)]] if exact else []))
-            calls += [{"op": "call", "inst": 1, "export": o, "args": [val(t, a), val(t, b)]} for a in PB[t] for b in PB[t]]
+            # every operator sees every pair of operand classes (both NaN kinds and signs on either side, zeros, infinities,
+            # subnormals, ordinary values); the larger pool is applied to a rotating half of the operators in the quick tier
+            pairs = [(a, b) for a in CL for b in CL]
+            if o in big:
+                pairs += [(a, b) for a in PB[t] for b in PB[t]]
+            calls += [{"op": "call", "inst": 1, "export": o, "args": [val(t, a), val(t, b)]} for a, b in dict.fromkeys(pairs)]
         for o in FREL:
             add(o, [t, t], ["i32"], [["local.get", 0], ["local.get", 1], ["%s.%s" % (t, o)]])
             calls += [{"op": "call", "inst": 1, "export": o, "args": [val(t, a), val(t, b)]} for a in PB[t][::2] for b in PB[t]]
@@ -222,6 +242,10 @@ def main():
                    "float programs; result bits (NaN by class where the specification leaves it open), trap codes compared with Float.tla",
            "spec_suite_vectors_checked": nvec, "pool_sizes": {t: len(P[t]) for t in P}, "builds": [b["name"] for b in builds],
            "generated_bodies": gst.get("bodies", 0), "ops_skipped_undefined": st["ops_skipped_undefined"], "exhaustive": False}
+    # the repository's own spec-suite corpus for this instruction family: model vs the suite's expectations, w2c2 vs model
+    sys.path.insert(0, os.path.dirname(os.path.abspath(__file__)))
+    import corpus
+    cov.update(corpus.phase(v, "C02", tier))
     return v.finish("model_checking", cov,
                     ["Float.tla is trusted as an oracle because it reproduces all expectations of the spec test suite for these opcodes "
                      "(checked in this run) and is built on the exhaustively checked Word operators",
